@@ -133,7 +133,10 @@ var vQuietTimers bool
 func vStartNodeAs(dir string, bootstrap, follower bool) (*vNode, error) {
 	log.SetOutput(io.Discard)
 	// -pre1.0_protobuf: the flag default (protobuf) unless the driver asks for the legacy JSON encoding
-	*useProtobuf = os.Getenv("VERIF_ENCODING") != "json"
+	// ("json-upgrade": the network starts with the legacy encoding and every node start after the first one runs
+	// with protobuf: opening the stores converts them)
+	enc := os.Getenv("VERIF_ENCODING")
+	*useProtobuf = !(enc == "json" || enc == "json-upgrade" && bootstrap)
 	// message ids = offset + raft index; main() sets the offset from a flag whose default is this value
 	robust.MessageOffset = 4648398125000000000
 	if o := os.Getenv("VERIF_MSGOFFSET"); o != "" {
